@@ -281,7 +281,7 @@ impl T31Spec {
         body[21] = self.radial_status;
         body[22] = self.elevation_number;
         body[23] = r.below(4) as u8; // cut sector
-        let el = if ALLOW_NON_FINITE.with(|a| a.get()) && r.below(10) == 0 { finite_f32(r) } else { (r.below(4000) as f32) / 200.0 };
+        let el = if ALLOW_NON_FINITE.with(|a| a.get()) && r.below(12) == 0 { [f32::NAN, f32::INFINITY, f32::NAN, f32::NEG_INFINITY][r.below(4) as usize] } else { (r.below(4000) as f32) / 200.0 };
         body[24..28].copy_from_slice(&el.to_be_bytes());
         body[28] = 0; // spot blanking
         body[29] = r.below(3) as u8 * 25; // azimuth indexing mode
